@@ -66,4 +66,11 @@ def scaleRow {s : Nat} (WH : Mat ℂ s n) (l : Fin s) (c : ℂ) : Mat ℂ s n :=
 def linkCov {t s : Nat} (H : Mat ℂ n t) (F : Mat ℂ t s) : Matrix (Fin n) (Fin n) ℂ :=
   (toM H * toM F) * (toM H * toM F)ᴴ
 
+/-- the current inputs of receiver `k` of a (plain) channel object, for a fixed layout -/
+structure RxInputs (K n : Nat) (T S : Fin K → Nat) (k : Fin K) where
+  G : (j : Fin K) → Mat ℂ n (T j)
+  V : (j : Fin K) → Mat ℂ (T j) (S j)
+  Uk : Mat ℂ n (S k)
+  noise : Option ℝ
+
 end PyPhysim.Sinr.Spec
